@@ -490,13 +490,15 @@ func (ndb *nodeDB) deleteVersion(version int64, cache *rootkeyCache) error {
 					return err
 				}
 			}
-			if orphan.nodeKey.nonce == 1 && orphan.nodeKey.version < version {
-				// if the orphan is referred to the previous root, it should be reformatted
-				// to (version, 0), because the root (version, 1) should be removed but not
-				// applied now due to the batch writing.
-				orphan.nodeKey.nonce = 0
-			}
 			nk := orphan.GetKey()
+			if orphan.nodeKey.nonce == 1 && orphan.nodeKey.version < version && !orphan.isLegacy {
+				// if the orphan is referred to the previous root, it has been reformatted
+				// to (version, 0), because the root (version, 1) should be removed but not
+				// applied now due to the batch writing. The node object itself is left
+				// untouched: it is shared, through the node cache, with the trees the
+				// writer and the readers hold.
+				nk = (&NodeKey{version: orphan.nodeKey.version, nonce: 0}).GetKey()
+			}
 			if orphan.isLegacy {
 				return ndb.deleteFromPruning(ndb.legacyNodeKey(nk))
 			}
@@ -526,8 +528,11 @@ func (ndb *nodeDB) deleteVersion(version int64, cache *rootkeyCache) error {
 		// the root should be reformatted to (version, 0); it is written before
 		// (version, 1) is deleted, so that the node can be found under one of the
 		// two keys wherever the batch happens to be flushed in between
-		root.nodeKey.nonce = 0
-		if err := ndb.saveNodeFromPruning(root); err != nil {
+		// (a copy is re-keyed: the cached node object is shared with the trees the
+		// writer and the readers hold and must not change under them)
+		rekeyed := *root
+		rekeyed.nodeKey = &NodeKey{version: root.nodeKey.version, nonce: 0}
+		if err := ndb.saveNodeFromPruning(&rekeyed); err != nil {
 			return err
 		}
 		// ensure that the given version is not included in the root search
